@@ -197,7 +197,10 @@ def check(pid, tier):
     if pid not in PLAN:
         log("unknown property %s" % pid)
         return 2
-    seed = int(os.environ.get("VERIF_SEED", "1") or "1")
+    try:
+        seed = abs(int(os.environ.get("VERIF_SEED", "1") or "1")) % 1000000007
+    except ValueError:
+        seed = 1
     t0 = time.time()
     binary = build()
     if binary is None:
